@@ -279,7 +279,8 @@ pub fn handle(st: &mut State, toks: &[&str]) -> HResult {
         ["debug", d] => {
             let b = st.bm[slot('b', d)?].as_ref()?;
             let s = format!("{:?}", b);
-            Some(format!("ok n={} h={:016x}", s.len(), fnv_bytes(s.as_bytes())))
+            let form = if s.contains(" values between ") { "summary" } else { "list" };
+            Some(format!("ok n={} h={:016x} f={}", s.len(), fnv_bytes(s.as_bytes()), form))
         }
         ["serde_events", d] => {
             let b = st.bm[slot('b', d)?].as_ref()?;
